@@ -28,13 +28,35 @@ pub fn populate(root: &VfsPath, universe: &[Vec<String>], snap: &Snap, cx: &Conc
     for (p, n) in universe.iter().zip(snap.iter()) {
         match n[0] {
             0 => {}
-            1 => cx.path(root, p).create_dir().expect("populate dir"),
-            _ => {
-                let mut h = cx.path(root, p).create_file().expect("populate file");
-                h.write_all(&conc_bytes(&n[1..], cx.b)).unwrap();
-            }
+            1 => pop_check("create_dir", p, guard(|| cx.path(root, p).create_dir())),
+            _ => pop_check(
+                "create_file+write",
+                p,
+                guard(|| {
+                    let mut h = cx.path(root, p).create_file()?;
+                    h.write_all(&conc_bytes(&n[1..], cx.b)).map_err(|e| vfs::VfsError::from(vfs::error::VfsErrorKind::IoError(e)))
+                }),
+            ),
         }
     }
+}
+
+thread_local! {
+    /// Failures while CONSTRUCTING a state through the public API (a directory or file whose parent was
+    /// just created could not be created, or the call panicked).  They are data about the code under test,
+    /// not tool errors: the next init event carries them and TLC reports the `populate` conjunct.
+    pub static POPFAIL: std::cell::RefCell<Vec<String>> = std::cell::RefCell::new(vec![]);
+}
+pub fn pop_check(what: &str, p: &[String], r: Result<vfs::VfsResult<()>, ()>) {
+    let msg = match r {
+        Ok(Ok(())) => return,
+        Ok(Err(e)) => format!("{what} {} -> {}", p.join("/"), class_of(&e)),
+        Err(()) => format!("{what} {} -> panic", p.join("/")),
+    };
+    POPFAIL.with(|f| f.borrow_mut().push(msg));
+}
+pub fn take_popfail() -> Vec<String> {
+    POPFAIL.with(|f| std::mem::take(&mut *f.borrow_mut()))
 }
 
 fn put_canaries(u: &Under, cx: &Conc) {
@@ -105,8 +127,8 @@ impl Session {
             for m in markers {
                 let file = format!(".whiteout/{}_wo", self.cx.names.conc_path(m));
                 let p = l0.root.join(&file).expect("marker path");
-                p.parent().create_dir_all().expect("marker parent");
-                p.create_file().expect("marker file");
+                pop_check("marker create_dir_all", m, guard(|| p.parent().create_dir_all()));
+                pop_check("marker create_file", m, guard(|| p.create_file().map(|_| ())));
             }
         }
     }
@@ -225,6 +247,10 @@ impl Session {
         }
         if let (Some(d), false) = (self.disk_json(), self.light) {
             e["disk"] = d;
+        }
+        let pf = take_popfail();
+        if !pf.is_empty() {
+            e["popfail"] = json!(pf);
         }
         e
     }
